@@ -113,6 +113,12 @@ def jobs(tier, seed):
     for name, cfg in cfgs.items():
         for law in ("translate", "advance", "assoc"):
             out.append({"id": f"{name}/{law}", "config": name, "cfg": cfg, "law": law})
+    # the built-in mappings must be what a fresh Program sees even after another Program of the same
+    # process installed a user mapping
+    other = map_configs("quick", 0)["map06"]
+    for name in ("lorom", "hirom"):
+        for law in ("translate", "advance"):
+            out.append({"id": f"{name}-after-user-map/{law}", "config": name, "cfg": BUILTIN[name], "law": law, "after": other})
     return out
 
 
@@ -121,6 +127,9 @@ def get_bus(spec):
     from harness.common import RecWriter, new_program
 
     cfg = spec["cfg"]
+    if spec.get("after"):
+        q = new_program("low")
+        q.assemble_string_with_emitter(map_source(spec["after"]) + "*=0x400000\n.db 1\n", "other.s", RecWriter())
     p = new_program(cfg.get("rom", "low"))
     if "rom" not in cfg:
         err = p.assemble_string_with_emitter(map_source(cfg), "map.s", RecWriter())
